@@ -501,3 +501,58 @@ def vertex_reindexing(ctx, repo, pid):
                          witness=src(unknown[0][0])[:120])
     else:
         ctx.ok("FLOATTOL", f"{pid}.reindex.tolerance", "vertex representatives are looked up with the default (rounding-noise) tolerance", fi.where)
+
+
+# ---------------------------------------------------------------------------------------------------------------------------
+# FORWARD: the grid objects expose the quantities of their Voronoi model by attribute forwarding (__getattr__)
+
+def getter_forwarding(ctx, repo, pid):
+    """SphereGridNDim.__getattr__ forwards every name it does not define to self.spherical_voronoi, which is how
+    grid.get_voronoi_adjacency() / get_cell_borders() / get_center_distances() / get_voronoi_volumes() reach the Voronoi classes
+    analysed by the other rules.  A method of the same name defined anywhere in the grid-class hierarchy SHADOWS the forwarding:
+    it must itself be a plain delegation, otherwise the reported quantity no longer comes from the analysed cell model."""
+    ci = repo.cls(RO, "SphereGridNDim")
+    ga = ci.methods.get("__getattr__")
+    ctx.instance("OWN")
+    fwd_ok = False
+    if ga is not None:
+        rets = [n for n in ast.walk(ga.node) if isinstance(n, ast.Return) and n.value is not None]
+        fwd_ok = len(rets) == 1 and src(rets[0].value).replace(" ", "") in ("getattr(self.spherical_voronoi,name)", "self.spherical_voronoi.__getattribute__(name)")
+    if not fwd_ok:
+        # forwarding replaced by explicit methods: every public Voronoi getter must then be delegated explicitly - not recognised here
+        ctx.inconclusive("OWN", f"{pid}.forward", "attribute forwarding of the grid classes to their Voronoi model not recognised",
+                         ga.where if ga is not None else ci.where if hasattr(ci, "where") else RO)
+        return
+    ctx.analysed(ga)
+    vmod = repo.module(VO)
+    vnames = set()
+    for c in vmod.classes.values():
+        vnames |= {m for m in c.methods if not m.startswith("__")}
+    rmod = repo.module(RO)
+    # grid classes = SphereGridNDim and its (transitive) subclasses in the module
+    grid_classes = [c for c in rmod.classes.values() if any(b.name == "SphereGridNDim" for b in c.mro())]
+    shadows = [(c, m, fi) for c in grid_classes for m, fi in c.methods.items() if m in vnames]
+    ctx.instance("OWN", len(vnames))
+    bad = False
+    for c, m, fi in sorted(shadows, key=lambda x: (x[0].name, x[1])):
+        ctx.analysed(fi)
+        rets = [n for n in ast.walk(fi.node) if isinstance(n, ast.Return) and n.value is not None]
+        deleg = lambda e: isinstance(e, ast.Call) and isinstance(e.func, ast.Attribute) and e.func.attr == m and \
+            src(e.func.value) in ("self.spherical_voronoi", "self.get_spherical_voronoi()")
+        if rets and all(deleg(r.value) for r in rets):
+            continue
+        bad = True
+        foreign = [r for r in rets if not deleg(r.value)]
+        txt = " ".join(src(r.value) for r in foreign)
+        if m == "get_voronoi_adjacency" and ("polytope" in txt or "adjacency_matrix" in txt or ".G" in txt):
+            ctx.violate("OWN", f"{pid}.forward.{m}", f"{c.name}.{m} shadows the forwarding to the Voronoi model and answers from the POLYTOPE graph: "
+                        "polytope edges are not Voronoi neighbourhoods (the cube graph carries face diagonals, a subdivided icosahedron graph "
+                        "lacks the inner triangle edges), so adjacency differs from the pattern of borders and distances", fi.where,
+                        src(foreign[0].value)[:160], witness=f"return path not through self.spherical_voronoi.{m}")
+        else:
+            ctx.inconclusive("OWN", f"{pid}.forward.{m}", f"{c.name}.{m} shadows the forwarding to the Voronoi model with an implementation of "
+                             "its own: the quantity no longer (only) comes from the analysed cell model", fi.where,
+                             src(foreign[0].value)[:160] if foreign else "")
+    if not bad:
+        ctx.ok("OWN", f"{pid}.forward", f"no grid class shadows one of the {len(vnames)} forwarded Voronoi methods with an implementation of its own "
+               f"({len(shadows)} plain delegations)", ga.where)
